@@ -154,11 +154,43 @@ def main(argv=None):
             jobs.append(dict(module=m, fn=h['fn'], config=cfg, name=h['name'], native=h.get('native', True), timeout=h.get('timeout', 60 if tier == 'quick' else 120),
                              max_paths=h.get('max_paths', 20000), crosscheck=h.get('crosscheck', 2 if tier == 'quick' else 8),
                              seed=seed, helper=h.get('helper', False)))
-    ctx = mp.get_context('fork')
-    with ctx.Pool(min(args.jobs, max(1, len(jobs)))) as pool:
-        results = pool.map(_worker, jobs, chunksize=1)
-
     known = load_known(pid)
+    ctx = mp.get_context('fork')
+    # jobs run in parallel; once a refuted obligation that is not a known finding has been seen, the remaining jobs get a grace period
+    # and are then abandoned (a change that breaks the property can make other obligations very hard to decide; the violation is
+    # already established and will be replayed).  On a tree where nothing new is refuted every job runs to completion.
+    grace = 45 if tier == 'quick' else 180
+    results_by_idx = {}
+    deadline = None
+    pool = ctx.Pool(min(args.jobs, max(1, len(jobs))))
+    try:
+        pending = [pool.apply_async(_worker, (j,)) for j in jobs]
+        done = set()
+        while len(done) < len(jobs):
+            progressed = False
+            for i, a in enumerate(pending):
+                if i in done or not a.ready():
+                    continue
+                res = a.get()
+                results_by_idx[i] = res
+                done.add(i)
+                progressed = True
+                if deadline is None and not res['error']:
+                    for o in res['obligations']:
+                        if o['status'] == 'refuted' and o['kind'] != 'safety' and known_match(known, jobs[i]['name'], o['name'], jobs[i]['config']) is None:
+                            deadline = time.time() + grace
+                            break
+            if deadline is not None and time.time() > deadline:
+                break
+            if not progressed:
+                time.sleep(0.05)
+    finally:
+        pool.terminate()
+        pool.join()
+    abandoned = [i for i in range(len(jobs)) if i not in results_by_idx]
+    results = [results_by_idx[i] for i in range(len(jobs)) if i in results_by_idx]
+    jobs_all = jobs
+    jobs = [jobs[i] for i in range(len(jobs_all)) if i in results_by_idx]
     engine_errors, undecided, refuted, discharged = [], [], [], 0
     all_obls = []
     touched = {}
@@ -341,6 +373,7 @@ def main(argv=None):
             extraction_drops=EXTRACTION_DROPS,
             known_findings=[dict(obligation=f"{o['harness']}/{o['name']}", config=o['config'], what=k.get('what', ''), replay=v) for k, o, v in known_hits],
             undecided_list=(undecided + spurious)[:50], engine_errors=engine_errors[:20],
+            harness_configurations_abandoned_after_a_violation=[f"{jobs_all[i]['name']}{json.dumps(jobs_all[i]['config'], sort_keys=True)}" for i in abandoned][:40],
             undefined_intermediates_not_reaching_the_result=benign[:40],
             samples=samples[:60],
         ),
